@@ -719,7 +719,7 @@ pub fn programs(tier: &str) -> Vec<(Program, Option<usize>)> {
             for c in thirds.iter() {
                 let full = tier != "quick";
                 let same_key_or_content = match (a, b) {
-                    (TOp::Put { k: k1, c: c1 }, TOp::Put { k: k2, c: c2 }) => (k1 == k2) != (c1 == c2),
+                    (TOp::Put { k: k1, c: c1 }, TOp::Put { k: k2, c: c2 }) => k1 == k2 || c1 == c2,
                     _ => false,
                 };
                 let interesting = same_key_or_content && matches!(c, TOp::Remove { k: 0 } | TOp::Get { .. } | TOp::DeleteOrphans);
@@ -773,7 +773,7 @@ fn relevant(p: &Program, prop: &str) -> bool {
     match prop {
         "C13" => ops.iter().any(|o| matches!(o, TOp::Abort { .. })) || p.vis == 1,
         // snapshots taken concurrently with writers: explicit checkpoints and rollover checkpoints (N=1)
-        "C20" => writers >= 1 && (ops.iter().any(|o| matches!(o, TOp::Checkpoint)) || p.cfg.n == 1),
+        "C20" | "C02" => writers >= 1 && (ops.iter().any(|o| matches!(o, TOp::Checkpoint)) || p.cfg.n == 1),
         "C08" => ops.iter().any(|o| o.is_cleanup()),
         "C07" => ops.iter().all(|o| !o.is_read()) && writers >= 1 && (p.init == Init::AB || p.cfg.n == 1 || p.threads.len() > 2),
         "C06" => writers >= 1 && ops.iter().all(|o| matches!(o, TOp::Put { .. } | TOp::Remove { .. } | TOp::RemoveRangeAll | TOp::GetReader { .. } | TOp::Abort { .. })) && p.init != Init::Empty,
@@ -802,7 +802,7 @@ pub fn run(tier: &str, slice: (u64, u64), seed: u64, prop: &str) -> WorkerResult
         }
     }
     if slice.0 == 0 {
-        res.completed.push(format!("{total} programs{}: all unordered pairs of single operations from a 17-op menu on 4 initial stores (N=10000) and on a=X with N=1 (rollover checkpoint inside every write): every interleaving, no preemption bound; three-thread programs with <= {} preemptions; two-ops-per-thread programs", if tier == "quick" && matches!(prop, "C13" | "C08" | "C07" | "C06" | "C20") { format!(" (the subset of the following relevant to {prop})") } else { String::new() }, if tier == "quick" { 2 } else { 3 }));
+        res.completed.push(format!("{total} programs{}: all unordered pairs of single operations from a 17-op menu on 4 initial stores (N=10000) and on a=X with N=1 (rollover checkpoint inside every write): every interleaving, no preemption bound; three-thread programs with <= {} preemptions; two-ops-per-thread programs", if tier == "quick" && matches!(prop, "C13" | "C08" | "C07" | "C06" | "C20" | "C02") { format!(" (the subset of the following relevant to {prop})") } else { String::new() }, if tier == "quick" { 2 } else { 3 }));
     }
     res
 }
